@@ -201,3 +201,42 @@ Qed.
 Theorem list_localized S d d' pat : localize (c_loc (conf S)) (lng S) d = LOk d' ->
   fs_list S d pat true = fs_list S d' pat false /\ fs_subdirectories S d true = fs_subdirectories S d' false.
 Proof. intros H. unfold fs_list, fs_subdirectories. rewrite (fs_addr_loc S d d' H). split; reflexivity. Qed.
+
+(* ------------------------------------------------------------------ the result is determined by its members *)
+Lemma sorted_unique l1 : forall l2, StronglySorted str_lt l1 -> StronglySorted str_lt l2 ->
+  (forall x, In x l1 <-> In x l2) -> l1 = l2.
+Proof.
+  induction l1 as [|a r1 IH]; intros l2 S1 S2 H.
+  - destruct l2 as [|b r2]; [reflexivity|]. exfalso. apply (proj2 (H b)). left; reflexivity.
+  - destruct l2 as [|b r2]; [exfalso; apply (proj1 (H a)); left; reflexivity|].
+    inversion S1 as [|? ? S1' F1]; subst. inversion S2 as [|? ? S2' F2]; subst.
+    rewrite Forall_forall in F1, F2.
+    assert (E : a = b).
+    { destruct (proj1 (H a) (or_introl eq_refl)) as [E|Ha]; [symmetry; exact E|].
+      destruct (proj2 (H b) (or_introl eq_refl)) as [E|Hb]; [exact E|].
+      exfalso. apply (str_lt_irrefl a). eapply str_lt_trans; [apply F1; exact Hb | apply F2; exact Ha]. }
+    subst b. f_equal. apply IH; auto. intros x. split; intros Hx.
+    + destruct (proj1 (H x) (or_intror Hx)) as [E|Hx']; [|exact Hx']. subst x. exfalso. exact (str_lt_irrefl a (F1 a Hx)).
+    + destruct (proj2 (H x) (or_intror Hx)) as [E|Hx']; [|exact Hx']. subst x. exfalso. exact (str_lt_irrefl a (F2 a Hx)).
+Qed.
+
+(* any strictly sorted list with the right members IS the listing *)
+Theorem list_canonical S d pat loc s a l l' : fs_addr S d loc = FOk (s, a) -> fs_list S d pat loc = FOk l ->
+  StronglySorted str_lt l' ->
+  (forall x, In x l' <-> exists L q, In L (layers S) /\ In q (l_list L a pat) /\ x = render_path q) ->
+  l' = l.
+Proof.
+  intros A H S' M. apply sorted_unique; [exact S' | eapply list_sorted; eauto|].
+  intros x. rewrite M. symmetry. eapply list_spec; eauto.
+Qed.
+
+(* the order of the layers does not matter for a listing *)
+Theorem list_layer_order S S' d pat loc : conf S' = conf S -> lng S' = lng S ->
+  (forall L, In L (layers S') <-> In L (layers S)) -> fs_list S' d pat loc = fs_list S d pat loc.
+Proof.
+  intros E1 E2 HL. unfold fs_list. rewrite (fs_addr_state S S' d loc E1 E2).
+  destruct (fs_addr S d loc) as [[s a]|e|k]; cbn [fbind]; try reflexivity. f_equal.
+  apply sorted_unique; try apply sort_dedup_sorted. intros x. rewrite !sort_dedup_In, !in_map_iff.
+  split; intros (q & <- & Hq); exists q; (split; [reflexivity|]); apply in_flat_map in Hq; destruct Hq as (L & HL' & Hq);
+    apply in_flat_map; exists L; (split; [apply HL; exact HL' | exact Hq]).
+Qed.
